@@ -22,6 +22,7 @@ type ReplayDriver struct {
 	File  string `json:"file"`  // test file, relative to /verif
 	Test  string `json:"test"`  // test function
 	Note  string `json:"note,omitempty"`
+	Extra []string `json:"extra_files,omitempty"` // helper test files injected alongside
 }
 
 func loadDrivers(verif string) []ReplayDriver {
@@ -35,7 +36,7 @@ func loadDrivers(verif string) []ReplayDriver {
 
 // runReplayTest injects file into pkg with `go test -overlay` and runs one
 // test. reproduced = the test failed (it asserts the property).
-func runReplayTest(repo, verif, pkg, file, test string) (reproduced bool, out string) {
+func runReplayTest(repo, verif, pkg, file, test string, extra ...string) (reproduced bool, out string) {
 	dir, err := os.MkdirTemp("", "hvreplay")
 	if err != nil {
 		return false, err.Error()
@@ -43,7 +44,11 @@ func runReplayTest(repo, verif, pkg, file, test string) (reproduced bool, out st
 	defer os.RemoveAll(dir)
 	src := filepath.Join(verif, file)
 	dst := filepath.Join(repo, pkg, filepath.Base(file))
-	ov, _ := json.Marshal(map[string]any{"Replace": map[string]string{dst: src}})
+	repl := map[string]string{dst: src}
+	for _, e := range extra {
+		repl[filepath.Join(repo, pkg, filepath.Base(e))] = filepath.Join(verif, e)
+	}
+	ov, _ := json.Marshal(map[string]any{"Replace": repl})
 	ovf := filepath.Join(dir, "ov.json")
 	os.WriteFile(ovf, ov, 0o644)
 	cmd := exec.Command("go", "test", "-overlay", ovf, "-vet=off", "-count=1", "-timeout", "90s", "-run", "^"+test+"$", "./"+pkg+"/")
@@ -74,7 +79,7 @@ func runReplayTest(repo, verif, pkg, file, test string) (reproduced bool, out st
 func tryReplay(w *World, verif, prop string, ob *Obligation) *ReplayOutcome {
 	for _, d := range loadDrivers(verif) {
 		if d.Match != "" && strings.Contains(ob.Name, d.Match) {
-			rep, out := runReplayTest(w.repo, verif, d.Pkg, d.File, d.Test)
+			rep, out := runReplayTest(w.repo, verif, d.Pkg, d.File, d.Test, d.Extra...)
 			return &ReplayOutcome{Driver: d.File + ":" + d.Test, Input: d.Note, Observed: out, Reproduced: rep}
 		}
 	}
